@@ -52,6 +52,9 @@ pub enum HFault {
     /// one name value replaced by another name that selects a different reader (/Subtype, /Type,
     /// /Filter, colour space and encoding names)
     NameValue { site: Site, name: String },
+    /// a whole object replaced by `depth` nested one-element arrays around a reference to itself
+    /// (`5 0 obj [5 0 R]`, `5 0 obj [[[5 0 R]]]`)
+    SelfArray { rev: usize, num: u32, depth: usize },
 }
 
 const HOSTILE_STRINGS: [&[u8]; 14] = [
@@ -102,7 +105,7 @@ impl HFault {
     pub fn obj_num(&self) -> Option<u32> {
         match self {
             HFault::Retarget { site, .. } | HFault::Boundary { site, .. } | HFault::Nest { site, .. } | HFault::DropKey { site } | HFault::StrValue { site, .. } | HFault::NameValue { site, .. } => Some(site.num),
-            HFault::LenRef { num, .. } | HFault::Payload { num, .. } | HFault::StreamKey { num, .. } => Some(*num),
+            HFault::LenRef { num, .. } | HFault::Payload { num, .. } | HFault::StreamKey { num, .. } | HFault::SelfArray { num, .. } => Some(*num),
             HFault::Override { .. } => None,
         }
     }
@@ -118,6 +121,7 @@ impl HFault {
             HFault::StreamKey { .. } => "stream_key",
             HFault::StrValue { .. } => "string_value",
             HFault::NameValue { .. } => "name_value",
+            HFault::SelfArray { .. } => "self_array",
         }
     }
     pub fn to_json(&self) -> J {
@@ -131,6 +135,7 @@ impl HFault {
             HFault::DropKey { site } => json!({"kind": "drop_key", "site": site_json(site)}),
             HFault::StrValue { site, bytes } => json!({"kind": "string_value", "site": site_json(site), "bytes": crate::docgen::hex(bytes)}),
             HFault::NameValue { site, name } => json!({"kind": "name_value", "site": site_json(site), "name": name}),
+            HFault::SelfArray { rev, num, depth } => json!({"kind": "self_array", "rev": rev, "num": num, "depth": depth}),
             HFault::StreamKey { rev, num, key, text } => json!({"kind": "stream_key", "rev": rev, "num": num, "key": key, "text": text.chars().take(80).collect::<String>(), "len": text.len()}),
         }
     }
@@ -144,6 +149,7 @@ impl HFault {
             "payload" => HFault::Payload { rev: j.get("rev")?.as_u64()? as usize, num: j.get("num")?.as_u64()? as u32, data: j.get("data")?.as_str()?.as_bytes().to_vec() },
             "drop_key" => HFault::DropKey { site: site_from(j.get("site")?)? },
             "string_value" => HFault::StrValue { site: site_from(j.get("site")?)?, bytes: crate::docgen::unhex(j.get("bytes")?.as_str()?)? },
+            "self_array" => HFault::SelfArray { rev: j.get("rev")?.as_u64()? as usize, num: j.get("num")?.as_u64()? as u32, depth: j.get("depth")?.as_u64()? as usize },
             "name_value" => HFault::NameValue { site: site_from(j.get("site")?)?, name: j.get("name")?.as_str()?.to_string() },
             "stream_key" => HFault::StreamKey { rev: j.get("rev")?.as_u64()? as usize, num: j.get("num")?.as_u64()? as u32, key: j.get("key")?.as_str()?.to_string(), text: j.get("text")?.as_str()?.to_string() },
             _ => return None,
@@ -270,6 +276,9 @@ pub fn single_faults_near(spec: &DocSpec, first: u32) -> Vec<HFault> {
             // the whole object replaced by a reference (an indirect object may itself be a reference):
             // to itself, to every other object, to object 0 and to an undefined number
             if matches!(slot, Slot::Direct { body: Body::Plain(_), .. } | Slot::Compressed { .. }) {
+                for depth in [1usize, 3] {
+                    out.push(HFault::SelfArray { rev: ri, num, depth });
+                }
                 for &t in &targets {
                     out.push(HFault::Retarget { site: Site { rev: ri, num, path: vec![] }, target: t });
                 }
@@ -426,6 +435,17 @@ pub fn apply(spec: &DocSpec, faults: &[HFault]) -> DocSpec {
                     } else {
                         dict.retain(|(k, _)| k != key);
                         dict.push((key.clone(), Val::Raw(text)));
+                    }
+                }
+            }
+            HFault::SelfArray { rev, num, depth } => {
+                if let Some(slot) = s.revisions.get_mut(*rev).and_then(|r| r.slots.get_mut(num)) {
+                    let mut v = Val::Ref(*num, 0);
+                    for _ in 0..*depth {
+                        v = Val::Arr(vec![v]);
+                    }
+                    if slot_val(slot).is_some() {
+                        set_slot_val(slot, v);
                     }
                 }
             }
